@@ -30,6 +30,22 @@ def sgAdj (g : Graph) (S : List Nat) : Array (List (Nat × Int)) := Id.run do
     e := e + 1
   return a
 
+/-- the signed graph with the edges in `hidden` removed (the hidden-edge heuristic searches this graph) -/
+def sgAdjHidden (g : Graph) (S hidden : List Nat) : Array (List (Nat × Int)) := Id.run do
+  let n := g.n
+  let mut a : Array (List (Nat × Int)) := Array.replicate (2 * n) []
+  let mut e := 0
+  for (u, w, c) in g.edges do
+    let sg := S.contains e
+    if u < n ∧ w < n ∧ !(hidden.contains e) then
+      for s in [true, false] do
+        let x := sgNode n u s
+        let y := sgNode n w (if sg then !s else s)
+        a := a.modify x (fun l => (y, c) :: l)
+        a := a.modify y (fun l => (x, c) :: l)
+    e := e + 1
+  return a
+
 /-- single-source shortest distances (non-negative weights), `none` = unreachable -/
 def sgDijkstra (adj : Array (List (Nat × Int))) (src : Nat) : Array (Option Int) := Id.run do
   let N := adj.size
